@@ -744,6 +744,30 @@ theorem hex_clear_of_border {K : Type} [Field K] [LinearOrder K] [IsStrictOrdere
   · exact hex_border_unrotated half hh R g pad sinT cosT size k a i j hh56 hh1 hR hg hpad hk hsize (by simpa using hT) ha hb hin
   · exact hex_border_rotated half hh R g pad sinT cosT size k a i j hh56 hh1 hR hg hpad hk hsize (by simpa using hT) ha hb hin
 
+/-- **the ANTIALIASED segments — the library default `antialias=True` — are clear of the array border too** (`pad ≥ 2`, both orientations, any
+gap ≥ 0): every pixel with a non-zero antialiased value of the segment at a cell within cube distance `k = rings` has row and column index in
+`[1, size − 2]`. The antialiased edge profile `clip(inner + 1/2 − ρ)` reaches half a pixel beyond the flats and at most `(1/2)/(√3/2) ≤ 3/5` of a
+pixel beyond the vertices; `pad ≥ 2` leaves room for that. -/
+theorem hex_clear_of_border_antialiased {K : Type} [Field K] [LinearOrder K] [IsStrictOrderedRing K]
+    (half hh R g pad : K) (hhalf : half = 1 / 2) (sinT cosT : Nat → K) (size : Int) (k : Nat) (a : HexCell) (i j : Int) (rotate : Bool)
+    (hh56 : 5 / 6 ≤ hh) (hh1 : hh ≤ 1) (hR : 0 ≤ R) (hg : 0 ≤ g) (hpad : 2 ≤ pad) (hk : 1 ≤ k)
+    (hsize : ((2 * k + 1 : ℕ) : K) * (R * hh) * 2 + ((2 * k : ℕ) : K) * g + pad * 2 ≤ (size : K))
+    (hT : if rotate then
+            (sinT 0 = 0 ∧ cosT 0 = 1 ∧ sinT 1 = hh ∧ cosT 1 = 1 / 2 ∧ sinT 2 = hh ∧ cosT 2 = -(1 / 2) ∧
+             sinT 3 = 0 ∧ cosT 3 = -1 ∧ sinT 4 = -hh ∧ cosT 4 = -(1 / 2) ∧ sinT 5 = -hh ∧ cosT 5 = 1 / 2)
+          else
+            (sinT 0 = 1 / 2 ∧ cosT 0 = hh ∧ sinT 1 = 1 ∧ cosT 1 = 0 ∧ sinT 2 = 1 / 2 ∧ cosT 2 = -hh ∧
+             sinT 3 = -(1 / 2) ∧ cosT 3 = -hh ∧ sinT 4 = -1 ∧ cosT 4 = 0 ∧ sinT 5 = -(1 / 2) ∧ cosT 5 = hh))
+    (hcell : a ∈ segCells k)
+    (hin : 0 < hexagonAt half (R * hh) sinT cosT size size (hexToRC (2 * hh) hh (3 / 2) a (R + g / 2) rotate).1
+          (hexToRC (2 * hh) hh (3 / 2) a (R + g / 2) rotate).2 true i j) :
+    (1 ≤ i ∧ i ≤ size - 2) ∧ (1 ≤ j ∧ j ≤ size - 2) := by
+  have ha := segCells_sum k a hcell
+  have hb := segCells_bounds k a hcell
+  cases rotate
+  · exact hex_border_unrotated_aa half hh R g pad sinT cosT size k a i j hhalf hh56 hh1 hR hg hpad hk hsize (by simpa using hT) ha hb hin
+  · exact hex_border_rotated_aa half hh R g pad sinT cosT size k a i j hhalf hh56 hh1 hR hg hpad hk hsize (by simpa using hT) ha hb hin
+
 /-- **the two segment theorems over the code's own expressions.** `Gen.hexInner`, `Gen.hexSizeArg`, `Gen.hexPitch` and `Gen.hexToRC` are
 re-translated from `hex_segments` / `hex_to_xy` / `hex_to_rc` on every run and are what the driver executes; with `sqrtN 3 = 2·hh`
 (`hh = √3/2`) they are the closed forms used above (`gen_hex_forms`), so: segments at distinct cells of a gap > 0 aperture share no pixel,
